@@ -159,6 +159,26 @@ class CFG:
         reach = self.reachable_from(src, avoid=through | set(stop))
         return not (reach & set(dst_set))
 
+    def natural_loop(self, a, h):
+        """blocks of the natural loop of back edge a -> h"""
+        body = {h, a}
+        stack = [a] if a != h else []
+        while stack:
+            x = stack.pop()
+            for p in self.pred[x]:
+                if p not in body:
+                    body.add(p)
+                    stack.append(p)
+        return body
+
+    def loops_containing(self, b):
+        """headers of natural loops that contain block b"""
+        heads = set()
+        for a, h in self.back_edges():
+            if b in self.natural_loop(a, h):
+                heads.add(h)
+        return heads
+
     def back_edges(self):
         """edges (a, b) where b dominates a"""
         out = []
